@@ -251,12 +251,12 @@ func c02Tree(L int) *c02Node {
 		k := 2 + vChoice(vTier(2, 3))
 		j := &c02Node{kind: 3}
 		for i := 0; i < k; i++ {
-			j.children = append(j.children, c02Operand(L))
-		}
-		if k == 4 && vTier(0, 1) == 1 {
-			// four operands: the last two from the plain spans only
-			j.children[2] = c02Plain(L)
-			j.children[3] = c02Plain(L)
+			if k == 4 && i >= 2 {
+				// four operands: the last two from the plain spans only
+				j.children = append(j.children, c02Plain(L))
+			} else {
+				j.children = append(j.children, c02Operand(L))
+			}
 		}
 		if vChoice(2) == 1 {
 			return &c02Node{kind: 2, children: []*c02Node{j}}
